@@ -73,8 +73,9 @@ struct syslock_save_pair system_lock_save()
     auto ret = syslock_save_pair{count, 0};
     assert(count != 0);
 
-    while (count--)
+    while (count)
     {
+        --count;
         mtx.unlock();
     }
 
